@@ -72,6 +72,16 @@ def main(argv: List[str]) -> int:
         shutil.rmtree(tmp, ignore_errors=True)
     if n == 0:
         run.crash("no Rust item obligation generated")
+    from contracts import rust_property as rpc
+    from lib.helpers_verify import verify_member_contract
+
+    verify_member_contract(
+        run,
+        stats,
+        rpc,
+        "rust generate_property no longer emits a field whose type is get_type_name of the property's type and optional mark and whose serde name (explicit rename, or the snake_case identifier when that is no Rust keyword) is the metamodel name",
+        "the field facets of the item table (committed model) and the evolved models of C06 stand in",
+    )
     run.assume(
         "the observable is the text of lib.rs: a token-level parser of the regular subset the plugin emits (items with outer attributes, struct fields, enum variants, type aliases, impl blocks as raw text)",
         "serde's camelCase rule is modelled (first segment unchanged, following segments capitalised); Box<> around recursive references is tolerated; an empty literal maps to LSPObject",
@@ -81,7 +91,7 @@ def main(argv: List[str]) -> int:
     cov = stats.coverage()
     cov.update(
         {
-            "explanation": "postcondition of generate_lib_rs stated against the metamodel and evaluated on every item of the emitted and of the committed lib.rs (complete for the committed model); helper lsp_to_base_types proved by SMT for all base types",
+            "explanation": "postcondition of generate_lib_rs stated against the metamodel and evaluated on every item of the emitted and of the committed lib.rs (complete for the committed model); helpers lsp_to_base_types, is_special, is_special_property, generate_extras and the field decisions of generate_property (type handed over with the optional mark, keyword escape with explicit rename) proved by SMT for all inputs",
             "obligations": stats.obligations + n,
             "discharged": stats.discharged + n - fails,
             "item_obligations": n,
